@@ -131,7 +131,7 @@ func decodeCborHeaders(dec *cbor.Decoder) (http.Header, map[string]string, error
 			continue
 		}
 
-		if _, exists := headers[name]; exists {
+		if _, exists := headers[http.CanonicalHeaderKey(name)]; exists {
 			return nil, nil, fmt.Errorf("Failed to decode request headers map entry. Header %q appeared twice.", name)
 		}
 
